@@ -242,6 +242,9 @@ func cmdWorker(args []string) int {
 				continue
 			}
 			seenFinding[id] = true
+			if len(pending) >= 4 {
+				continue // enough distinct findings from this slice: minimising each one costs time
+			}
 			pending = append(pending, pendingFinding{v: v, tv: tp.Snapshot(), seed: seed, idx: idx})
 		}
 	}
@@ -920,6 +923,10 @@ func cmdRun(args []string) int {
 			continue
 		}
 		reported[id] = true
+		if violations+strings.Count(unconfirmed, "\n") >= 8 {
+			os.Remove(f.Path) // plenty reported already
+			continue
+		}
 		isKnown := false
 		for i, k := range kf.Known {
 			if k.Property == *prop && k.Class == f.Class && k.Key == f.Key {
@@ -1081,6 +1088,12 @@ func cmdRun(args []string) int {
 	if harness != "" {
 		if len(harness) > 3000 {
 			harness = harness[:3000] + "\n... (truncated)\n"
+		}
+		if violations > 0 {
+			// confirmed violations stand on their own replay files; trouble in other workers
+			// (often caused by the very same defect, e.g. a fatal runtime error) must not hide them
+			fmt.Printf("NOTE: some worker processes also ended abnormally:\n%s", harness)
+			return 1
 		}
 		fmt.Fprintf(os.Stderr, "HARNESS ERROR:\n%s", harness)
 		return 2
